@@ -261,3 +261,27 @@ Definition w_recheck : list event :=
   [EConnect 1; EConnect 2; at0 1 [bs "BLPOP"; bs "q"; bs "r"; bs "0"] (Some 0);
    at0 2 [bs "LPUSH"; bs "q"; bs "a"] None; at0 2 [bs "LPOP"; bs "q"] None; at0 2 [bs "LPUSH"; bs "r"; bs "b"] None;
    EWakeups].
+
+(** ---- no stranding (the safety half of "served promptly") ---- *)
+(** wake-ups under way for a key *)
+Definition wcount (db : Z) (k : bytes) (W : list wakeup) : Z :=
+  len (filter (fun u => (u_db u =? db) && beq (u_key u) k) W).
+(** a key that has a waiter holds at most as many elements as wake-ups are under way for it: once the
+    wake-up queue has drained, nobody is blocked on a key that holds an element *)
+Definition no_strand (st : sys) : Prop :=
+  forall db k, 0 <= db -> reg_get (b_reg (snd st)) (db, k) <> [] ->
+  len (list_at (fst st) db k) <= wcount db k (b_wake (snd st)).
+(** histories of the list catalogue in which every blocking pop names ONE key *)
+Definition single_key (f : frame) : bool :=
+  match f with FArray parts => if bpop_parts parts then len parts =? 3 else true | _ => true end.
+Definition ok_sk (st : sys) (e : event) : bool :=
+  ok_cons st e && match e with EFrame _ _ f _ => single_key f | _ => true end.
+Inductive reach_sk : sys -> Prop :=
+| rsk_init : reach_sk (init_server None, init_blocking)
+| rsk_step : forall st e, reach_sk st -> ok_sk st e = true -> reach_sk (step st e).
+Fixpoint all_ok_sk (st : sys) (evs : list event) : bool :=
+  match evs with [] => true | e :: r => ok_sk st e && all_ok_sk (step st e) r end.
+(** two single-key waiters, a push of two elements observed BEFORE the wake-ups run, then after *)
+Definition w_sk : list event :=
+  [EConnect 1; EConnect 2; EConnect 3; at0 1 [bs "BLPOP"; bs "q"; bs "0"] (Some 0);
+   at0 2 [bs "BRPOP"; bs "q"; bs "0.3"] (Some 300); at0 3 [bs "RPUSH"; bs "q"; bs "a"; bs "b"; bs "c"] None].
